@@ -26,7 +26,8 @@ META = {
                          "whitespace": "one of 5 gap styles globally + (laws without context/second function operand) one gap (position <= 5) "
                                        "empty or newline",
                          "intervening_selectors_for_identity": 3000},
-               "thorough": {"as quick": True, "whitespace": "5 global styles x one gap (position <= 12) in any of the 5 styles, all laws"}},
+               "thorough": {"as quick": True, "whitespace": "5 global styles x one gap (position <= 12) in any of the 5 styles (laws with one operand hole), "
+                                          "empty/newline (two holes), global style only (three holes)"}},
     "out_of_scope": ["operands outside the listed alphabets", "selectors deeper than the embedding contexts",
                      "whitespace inside words / string literals"],
     "assumptions": ["strings are concrete once the vector is chosen; parse runs natively: the solver enumerates the finite choice space",
@@ -187,9 +188,11 @@ def build(case):
             assume(ssel == 0)
         st = pick(style, len(GAPS))
         nholes = sum(1 for hname in ("{V}", "{A}", "{G}", "{S}") if hname in uses)
-        if wide and nholes >= 2:  # large operand spaces: one global gap style only
+        if (wide and nholes >= 2) or nholes >= 3:  # large operand spaces: one global gap style only
             assume(pos == 0 and local == 0)
             ps, lc = -1, 0
+        elif not wide and nholes == 2:
+            ps, lc = pick(pos, 13), [0, 3][pick(local, 2)]
         else:
             ps, lc = pick(pos, 13 if not wide else 6), (pick(local, len(GAPS)) if not wide else [0, 3][pick(local, 2)])
 
